@@ -2,6 +2,10 @@
 
 (A) TLC checks specs/StateCommit.tla exhaustively (crash between all micro-steps,
     torn unsynced files, stale lock handling) + reachability (vacuity) configs.
+(A') unbounded-depth argument: Apalache proves that IndInv of specs/StateCommitApa.tla (a typed
+    copy of the protocol, kept equal to StateCommit.tla by a TLC state-count cross-check) is
+    inductive for ARBITRARY MaxSnap/MaxInv/MaxCrash/MaxAsync and implies every P invariant;
+    vacuity: IndInit is satisfiable and a deliberately weakened action breaks the step.
 (B) TLC -simulate generates behaviours (API-level action sequences with crash points);
     each is replayed into the real bob.state._BobState under the fs interposer. At every
     Crash action the driver additionally builds the crash image for EVERY prefix of the
@@ -21,7 +25,11 @@ import json
 import multiprocessing as mp
 import os
 import random
+import re
+import subprocess
 import sys
+import time
+from concurrent.futures import ThreadPoolExecutor
 
 from vf import common, tlc, evidence, fsint
 
@@ -487,6 +495,146 @@ def validate_traces(traces, rep, batch=400):
     return rejected
 
 
+# --------------------------------------------------------------------------------------------
+# (A') Apalache: inductive invariant of specs/StateCommitApa.tla (entry points MC_StateCommitApa.tla)
+
+P_INVARIANTS = ["TypeOK", "LoadNeverErrors", "LoadsSavedSnapshot", "NotOlderThanCompleted", "SingleWriter", "PickleDurable"]
+APA_MC = "MC_StateCommitApa.tla"
+# (name, arguments, expected outcome, state at which the violation must be reported)
+APA_JOBS = [
+    ("step",          ["--cinit=CInit", "--init=IndInit", "--inv=IndInv", "--length=1"], "NoError", None),
+    ("base",          ["--cinit=CInit", "--init=Init", "--inv=IndInv", "--length=0"], "NoError", None),
+    ("implies-P",     ["--cinit=CInit", "--init=IndInit", "--inv=" + ",".join(P_INVARIANTS), "--length=0"], "NoError", None),
+    # vacuity (a): IndInit (= any state satisfying IndInv) is satisfiable, also in two interesting corners
+    ("sat-IndInit",   ["--cinit=CInit", "--init=IndInit", "--inv=NotIndInv", "--length=0"], "Error", 0),
+    ("sat-recovering", ["--cinit=CInit", "--init=IndInit", "--inv=NotRecovering", "--length=0"], "Error", 0),
+    ("sat-midsave",   ["--cinit=CInit", "--init=IndInit", "--inv=NotMidSave", "--length=0"], "Error", 0),
+    # vacuity (b): a deliberately weakened action must break the inductive step
+    ("weak-nofsync",  ["--cinit=CInitNoFsync", "--init=IndInit", "--inv=IndInv", "--length=1"], "Error", 1),
+    ("weak-noverify", ["--cinit=CInitNoVerify", "--init=IndInit", "--inv=IndInv", "--length=1"], "Error", 1),
+]
+
+
+class ApalacheError(Exception):
+    pass
+
+
+def _itf_plain(v):
+    if isinstance(v, dict):
+        if "#bigint" in v:
+            return int(v["#bigint"])
+        if "#set" in v:
+            return sorted((_itf_plain(x) for x in v["#set"]), key=repr)
+        if "#tup" in v:
+            return [_itf_plain(x) for x in v["#tup"]]
+        return {k: _itf_plain(x) for k, x in v.items() if not k.startswith("#")}
+    if isinstance(v, list):
+        return [_itf_plain(x) for x in v]
+    return v
+
+
+def apalache_run(name, args, work, timeout):
+    """One `apalache-mc check` under `timeout`; everything it writes goes below `work`."""
+    out = os.path.join(work, name)
+    tmp = os.path.join(work, "tmp-" + name)
+    os.makedirs(tmp)
+    env = dict(os.environ, TMPDIR=tmp, JVM_ARGS="-Xmx2g")
+    cmd = ["timeout", "-k", "5", str(timeout), "apalache-mc", "check", "--out-dir=" + out, "--run-dir=" + out + "-run"] \
+        + args + [APA_MC]
+    t0 = time.time()
+    p = subprocess.run(cmd, cwd=tlc.SPECS, env=env, stdout=subprocess.PIPE, stderr=subprocess.STDOUT, text=True, errors="replace")
+    r = {"name": name, "args": " ".join(args), "rc": p.returncode, "wall_s": round(time.time() - t0, 1), "outcome": None,
+         "violated_at_state": None, "out": p.stdout}
+    m = re.search(r"The outcome is: (\w+)", p.stdout)
+    if m:
+        r["outcome"] = m.group(1)
+    m = re.search(r"State (\d+): state invariant (\d+) violated", p.stdout)
+    if m:
+        r["violated_at_state"], r["violated_conjunct"] = int(m.group(1)), int(m.group(2))
+    if p.returncode == 124 or p.returncode == 137:
+        r["outcome"] = "Timeout"
+    r["cex"] = None
+    if r["outcome"] == "Error":
+        for root, _, files in os.walk(out):
+            if "violation1.itf.json" in files:
+                with open(os.path.join(root, "violation1.itf.json")) as f:
+                    itf = json.load(f)
+                r["cex"] = [_itf_plain(st) for st in itf["states"]]
+    return r
+
+
+def apalache_start(quick, work):
+    """Start the Apalache jobs in the background (each is one JVM + z3, ~50 s CPU); returns the executor
+    and the futures. They overlap with the TLC / replay stages.
+    Tier decision (measured): one run costs 40-55 s wall on the shared machine (JVM start, SANY and the
+    Snowcat type checker dominate; the SMT part is ~10 s), the three proof commands do not fit into the
+    ~60 s of the quick tier and time out at 120 s next to 16 TLC workers / replay processes -> thorough
+    tier only. The quick tier keeps the TLC cross-check of the copy (which also evaluates IndInv on every
+    reachable state of the bounded model)."""
+    if quick:
+        return None, []
+    scale = int(os.environ.get("VF_TIMEOUT_SCALE", "1") or 1)
+    timeout = 600 * scale
+    ex = ThreadPoolExecutor(4)
+    return ex, [(j, ex.submit(apalache_run, j[0], j[1], work, timeout)) for j in APA_JOBS]
+
+
+def apalache_collect(rep, ex, futs, xcheck):
+    """A wrong outcome on the unchanged spec is a failure of the machinery (the design model or its
+    inductive invariant), never a VIOLATION of the code: raise."""
+    if ex is None:
+        rep.extra["apalache"] = {"status": "not run in the quick tier (thorough tier only: the proof runs need ~3x50 s)",
+                                 "copy_vs_original": xcheck}
+        return False
+    runs, bad = [], []
+    for (name, args, expect, at), fut in futs:
+        r = fut.result()
+        ok = r["outcome"] == expect and (at is None or r["violated_at_state"] == at)
+        runs.append({k: r.get(k) for k in ("name", "args", "outcome", "violated_at_state", "violated_conjunct", "wall_s")}
+                    | {"expected": expect + ("" if at is None else " at state %d" % at)})
+        if not ok:
+            bad.append("%s: expected %s%s, got %s (rc=%s)\n%s" % (name, expect, "" if at is None else " at state %d" % at,
+                                                                r["outcome"], r["rc"], r["out"][-1500:]))
+        elif name.startswith("weak-") and r["cex"] and len(r["cex"]) >= 2:
+            s0, s1 = r["cex"][-2], r["cex"][-1]
+            rep.sample({"apalache_vacuity": name + ": IndInv is NOT preserved by the weakened protocol",
+                        "violated_conjunct_of_IndInv": r.get("violated_conjunct"),
+                        "from": {k: s0.get(k) for k in ("pc", "pickle", "newf", "dirty", "mem", "lastCompleted")},
+                        "to": {k: s1.get(k) for k in ("pc", "pickle", "newf", "dirty", "mem", "lastCompleted")}})
+    ex.shutdown()
+    rep.extra["apalache"] = {
+        "tool": "apalache-mc 0.58", "module": APA_MC + " (EXTENDS StateCommitApa)", "runs": runs,
+        "copy_vs_original": xcheck,
+        "proven": ("IndInv is an inductive invariant of StateCommitApa (base: Init => IndInv; step: IndInv /\\ Next => IndInv') "
+                   "and IndInv => " + " /\\ ".join(P_INVARIANTS) + ", hence the P layer holds at EVERY depth. "
+                   "Unbounded: MaxSnap, MaxInv, MaxCrash, MaxAsync are arbitrary naturals and all counters / snapshot numbers "
+                   "are mathematical integers (number of mutations, invocations, crashes and the async nesting are not bounded). "
+                   "Bounded: `saved` ranges over sets of at most 8 integers in IndInit (Gen(8)); IndInv/Next use it only through "
+                   "membership of <= 6 terms, a universally quantified range condition and single insertions "
+                   "(small-model argument in MC_StateCommitApa.tla, not machine checked)."),
+        "vacuity": "IndInit satisfiable (negated probes violated at state 0); weakened action(s) break the step at state 1",
+    }
+    if bad:
+        raise ApalacheError("Apalache stage failed on the unchanged spec:\n" + "\n".join(bad))
+    return True
+
+
+def xcheck_copy(res, quick):
+    """The typed copy must not diverge from StateCommit.tla: same constants, same invariants (plus IndInv,
+    evaluated by TLC on every reachable state) -> same number of distinct states and transitions.
+    (The reported depth is not compared: it is not deterministic with several TLC workers.)"""
+    cfg = "StateCommitApa_xcheck.cfg" if quick else "StateCommitApa_xcheck_thorough.cfg"
+    r = tlc.run("StateCommitApa", cfg, timeout=1500)
+    if r.violated:
+        raise ApalacheError("TLC: %s violated on StateCommitApa (%s):\n%s" % (r.violated, cfg, r.cex[-2:]))
+    x = {"config": cfg, "states_copy": r.distinct, "states_original": res.distinct,
+         "transitions_copy": r.generated, "transitions_original": res.generated, "wall_s": round(r.wall, 2),
+         "IndInv_checked_by_TLC_on_reachable_states": True}
+    if (r.distinct, r.generated) != (res.distinct, res.generated):
+        raise ApalacheError("StateCommitApa.tla diverged from StateCommit.tla: %s" % x)
+    return x
+
+
 def main():
     a = common.args(PROP)
     rep = evidence.Report(PROP, a.tier, a.seed)
@@ -498,6 +646,8 @@ def main():
                        "Adler-32 detects the garblings generated (none generated here passed it unnoticed, else reported)",
                        "file-system effects of bob.state are issued through os/open names in its module namespace"]
     quick = a.tier == "quick"
+    # (A') started first, runs in the background, collected at the end
+    apa_ex, apa_futs = apalache_start(quick, None if quick else common.scratch("vf-c10apa-"))
     # (A) exhaustive design check
     res = tlc.run("StateCommit", "StateCommit.cfg" if quick else "StateCommit_thorough.cfg", coverage=True, timeout=1500)
     rep.add_tlc(res, "StateCommit exhaustive")
@@ -511,6 +661,7 @@ def main():
         r2 = tlc.run("StateCommit", "StateCommit_reach_%s.cfg" % inv, timeout=300)
         if r2.violated != inv:
             raise tlc.TlcError("vacuity: %s not reachable" % inv)
+    xcheck = xcheck_copy(res, quick)
     # (B) generate behaviours
     num = 400 if quick else 6000
     gen = tlc.run("StateCommit", "StateCommit_gen.cfg", workers=1, simulate="num=%d" % num, depth=45,
@@ -548,6 +699,10 @@ def main():
     rep.extra["traces_rejected_by_spec"] = len(rejected)
     for (i, n, evn, t) in rejected[:50]:
         rep.model_drift("trace %d rejected at event %d %s (after %s)" % (i, n, evn, t[max(0, n - 3):n]))
+    # (A') collect the Apalache results
+    if apalache_collect(rep, apa_ex, apa_futs, xcheck):
+        rep.assumptions.append("design model, unbounded part: IndInv proven inductive by Apalache for arbitrary MaxSnap/MaxInv/"
+                               "MaxCrash/MaxAsync and unbounded integers; `saved` bounded to <= 8 elements in the induction hypothesis")
     if rep.drift:
         rep.level = "exploration"
     return rep.finish()
